@@ -16,6 +16,7 @@ import (
 	"verif/sim/props/c05"
 	"verif/sim/props/c07"
 	"verif/sim/props/c13"
+	"verif/sim/props/c14"
 	"verif/sim/props/c18"
 )
 
@@ -25,6 +26,7 @@ func props() map[string]core.Prop {
 		"C05": c05.Prop{},
 		"C07": c07.Prop{},
 		"C13": c13.Prop{},
+		"C14": c14.Prop{},
 		"C18": c18.Prop{},
 	}
 }
